@@ -654,7 +654,7 @@ package ion
 
 //@ func buildIndex
 //@ requires offset < 1<<62
-//@ invariant loop0 [idx_ int, index map[string]uint64] idx_ >= -1 && idx_ < len(symbols) && vcMapAllU64(index, func(id uint64) bool { return offset <= id && id <= offset+uint64(idx_) })
+//@ invariant loop0 [idx_ int, index map[string]uint64] idx_ >= -1 && idx_ < len(symbols) && vcMapAllU64(index, func(id uint64) bool { return offset <= id && id < offset+uint64(idx_+1) })
 //@ modifies nothing
 //@ ensures[C09] result != nil && vcFresh(result)
 //@ ensures[C09] vcMapAllU64(result, func(id uint64) bool { return offset <= id && id < offset+uint64(len(symbols)) })
@@ -1137,7 +1137,7 @@ package ion
 //@ func (*symbolTableBuilder).Add
 //@ split returns
 //@ requires lstWF(&b.lst) && b.index != nil
-//@ modifies b.symbols, b.index
+//@ modifies b.symbols, b.index{*}
 //@ ensures[C09] old(vcHasKey(b.index, symbol)) ==> !result1 && len(b.symbols) == old(len(b.symbols))
 //@ ensures[C09] result1 ==> result0 == b.maxImportID+uint64(old(len(b.symbols)))+1 && len(b.symbols) == old(len(b.symbols))+1 && b.symbols[len(b.symbols)-1] == symbol
 //@ ensures[C09] result1 ==> vcHasKey(b.index, symbol) && b.index[symbol] == result0
